@@ -15,6 +15,7 @@ import (
 	"os"
 	"path/filepath"
 	"sort"
+	"strings"
 	"sync"
 	"time"
 
@@ -163,6 +164,10 @@ func SenderConfig(prop string, r *Rand, tier string) map[string]int64 {
 		c["w_fault"], c["w_lost"], c["w_crash"], c["w_losedb"], c["w_savefault"] = 0, 0, 0, 0, 0
 	}
 	c["big_meta"] = int64(r.Intn(2))
+	c["real_proofs"] = 0
+	if prop == "C09" || r.Bool(30) {
+		c["real_proofs"] = 1
+	}
 	return c
 }
 
@@ -194,9 +199,26 @@ type senderWorld struct {
 	faultArmed    bool
 	// world-level reference for claims
 	usedLeaves map[uint32]bool
+	cw         *claimWorld
+}
+
+// senderOwns: which oracle groups a property's check reports. The same runs feed six properties;
+// a violation of another property's oracle is that property's business (counted as a probe here).
+var senderOwns = map[string][]string{
+	"C02": {"c02/"}, "C03": {"c03/"}, "C09": {"c09/"}, "C10": {"c10/"}, "C13": {"c13/", "c02/"}, "C17": {"c17/"}, "C19": {"c19/"},
 }
 
 func (s *senderWorld) fail(oracle, sig, format string, a ...any) {
+	owned := false
+	for _, pre := range senderOwns[s.prop] {
+		if strings.HasPrefix(sig, pre) {
+			owned = true
+		}
+	}
+	if !owned {
+		s.rec.Stats.Inc("other_property_oracle_fired_" + sig[:3])
+		return
+	}
 	if s.viol == nil {
 		s.viol = &Violation{Oracle: oracle, Sig: sig, Detail: fmt.Sprintf(format, a...)}
 	}
@@ -240,6 +262,12 @@ func (s *senderWorld) genL2Block(seed uint64) MBlock {
 			continue
 		}
 		leaf := finLeaves[r.Intn(len(finLeaves))]
+		if s.cw != nil {
+			if cl := s.cw.GenClaim(r, leaf, num, pos, ts); cl != nil {
+				b.Events = append(b.Events, bridgesync.Event{Claim: cl})
+				continue
+			}
+		}
 		var pl, pr [32]common.Hash
 		for j := range pl {
 			pl[j], pr[j] = genHash(r), genHash(r)
@@ -559,6 +587,10 @@ func (s *senderWorld) onSubmit(sub *Submission) {
 	s.rec.Stats.Inc("signatures_checked")
 	// ---- C17: the cut of the block range ----
 	s.checkCut(sub, bs, cs)
+	// ---- C09: claim proofs verify against the named L1 info root ----
+	if s.cw != nil {
+		s.checkClaimProofs(sub)
+	}
 }
 
 // checkCut: the last block of a certificate is the largest permitted one.
@@ -702,6 +734,10 @@ func runSender(prop string, tr *Trace, sc *Script, rec *Recorder, scratch string
 	}
 	defer s.l2s.Close()
 	s.l2r = &l2Recorder{BridgeSync: s.l2s.P.Facade(senderNetworkID)}
+	if cfg["real_proofs"] == 1 {
+		s.cw = newClaimWorld()
+		s.l1g.Roots = s.cw.NextRoots
+	}
 	s.ag = NewAgglayerModel(s.w, senderNetworkID, RefAppendRoot(nil))
 	s.ag.OnSubmit = s.onSubmit
 	if v := s.startNode(); v != nil {
@@ -1022,6 +1058,10 @@ func (s *senderWorld) drain(syncL1 func(uint64) *Violation, addL2 func(uint64) *
 					}
 				}
 			}
+			if s.prop != "C13" {
+				rec.Stats.Inc("other_property_oracle_fired_c13")
+				return nil
+			}
 			return &Violation{Oracle: "recovery", Sig: sig, Detail: fmt.Sprintf("after restart the node never completes its reconciliation with the Agglayer (status %q, %d epoch ticks, faults stopped): last error: %.400s; Agglayer: %d settled, latest certificate status %s", info.AggsenderStatus.Status, ticks, info.AggsenderStatus.LastError, len(s.ag.Settled), st)}
 		}
 		// no liveness clause in C02/C03/...: a stall of a healthy node is recorded as an observation only
@@ -1031,6 +1071,10 @@ func (s *senderWorld) drain(syncL1 func(uint64) *Violation, addL2 func(uint64) *
 		}
 	}
 	// C02 over history: settled certificates in height order contain every exit and claim exactly once, in order
+	if s.prop != "C02" && s.prop != "C13" {
+		rec.Stats.Add("settled_certificates", int64(len(s.ag.Settled)))
+		return nil
+	}
 	next := uint64(1)
 	var gotExits, wantExits []common.Hash
 	var gotGI, wantGI []string
@@ -1071,7 +1115,7 @@ func (s *senderWorld) drain(syncL1 func(uint64) *Violation, addL2 func(uint64) *
 
 func init() {
 	opl := func(cfg map[string]int64) int { return int(cfg["ops"]) }
-	for _, id := range []string{"C02", "C03", "C10", "C13", "C17", "C19"} {
+	for _, id := range []string{"C02", "C03", "C09", "C10", "C13", "C17", "C19"} {
 		id := id
 		nt := func(s Stats) bool { return s["submissions_accepted"] >= 2 }
 		switch id {
@@ -1085,6 +1129,8 @@ func init() {
 			nt = func(s Stats) bool { return s["global_indexes_checked"] >= 2 }
 		case "C10":
 			nt = func(s Stats) bool { return s["signatures_checked"] >= 2 && s["stored_copies_checked"] >= 1 }
+		case "C09":
+			nt = func(s Stats) bool { return s["claim_proofs_verified"] >= 2 }
 		}
 		register(&PropSpec{ID: id, Engine: "sendersim", Config: SenderConfig, Run: RunSender, OpLimit: opl, Nontrivial: nt})
 	}
